@@ -89,12 +89,76 @@ def gen_program(rng, mode):
     return case
 
 
+def templated(rng):
+    """structured scenarios (mostly valid, specific multi-step shapes) with random variation"""
+    drv = rng.choice([0, 1, 1])
+    cap = rng.choice([1, 2, 4, 1024])
+    t = rng.randrange(6)
+    S = []
+    if t == 0:
+        # several operations queued on ONE descriptor, one of them (often the head) is cancelled
+        # and reaped, only then the descriptor becomes ready
+        k = rng.randrange(2, 5)
+        for _ in range(k):
+            S.append((1, 0, rng.choice([1, 2, 4, 8])))
+        victim = rng.choice([0, 0, 0, rng.randrange(k)])
+        S.append((rng.choice([8, 8, 9, 7]), victim, 0))
+        S.append((5, rng.choice([0, 5]), 0))
+        if rng.random() < 0.5:
+            S.append((5, 5, 0))
+        S.append((4, 0, rng.choice([1, 3, 9])))
+        S += [(5, 10, 0), (5, 5, 0)]
+        S += [(6, i, 0) for i in range(k)]
+    elif t == 1:
+        # multishot accept with unreaped completions when the driver goes away
+        S.append((14, 0, 0))
+        if rng.random() < 0.5:
+            S.append((7, 0, 0))
+        S.append((15, rng.choice([1, 2, 3]), 0))
+        if rng.random() < 0.5:
+            S += [(5, 5, 0), (13, 0, 0), (15, rng.choice([1, 2]), 0)]
+        S.append((10, rng.choice([0, 1]), 0))
+    elif t == 2:
+        # zero-copy send: byte count first, buffer only after the notification; drop points
+        S.append((12, 0, rng.choice([1, 8, 64])))
+        S.append((rng.choice([5, 5, 7, 8]), 0 if rng.random() < 0.5 else 5, 0))
+        S += [(13, 0, 0), (6, 0, 0), (5, 5, 0), (6, 0, 0)]
+        if rng.random() < 0.4:
+            S.append((10, rng.choice([0, 1]), 0))
+    elif t == 3:
+        # submission queue overflow: more pushes than the queue holds, then cancels
+        cap = rng.choice([1, 2])
+        k = rng.randrange(3, 7)
+        for i in range(k):
+            S.append((rng.choice([1, 1, 2]), rng.randrange(2), rng.choice([1, 4, 8])))
+        for _ in range(rng.randrange(1, 3)):
+            S.append((rng.choice([8, 9]), rng.randrange(k), 0))
+        S += [(4, 0, 5), (4, 1, 5), (5, 10, 0), (5, 5, 0)] + [(6, i, 0) for i in range(k)]
+    elif t == 4:
+        # blocking jobs around driver drop / handle drops
+        k = rng.randrange(1, 4)
+        for _ in range(k):
+            S.append((3, rng.choice([0, 2, 10]), 0))
+        S.append((rng.choice([5, 7, 10]), rng.choice([0, 1]), 0))
+        S += [(5, 10, 0)] + [(6, i, 0) for i in range(k)]
+    else:
+        # cancel after completion / twice, neighbours keep their data
+        S += [(1, 0, 4), (1, 0, 4), (4, 0, 8), (5, 10, 0), (5, 5, 0)]
+        S.append((rng.choice([8, 9]), rng.choice([0, 1]), 0))
+        S.append((rng.choice([8, 9]), rng.choice([0, 1]), 0))
+        S += [(6, 0, 0), (6, 1, 0)]
+    case = [drv, cap, 2, len(S)]
+    for (o, a, b) in S:
+        case += [o, a, b]
+    return case
+
+
 def make(mode):
     class G:
         @staticmethod
         def generate(seed, n):
             rng = random.Random(seed * 1000003 + hash(mode) % 1000)
-            return [gen_program(rng, mode) for _ in range(n)]
+            return [templated(rng) if rng.random() < 0.25 else gen_program(rng, mode) for _ in range(n)]
 
         @staticmethod
         def describe(case):
